@@ -236,7 +236,7 @@ func C07(c *vlib.Ctx) {
 	}))
 	defer authMock.Close()
 
-	nCfg := c.N(10, 120)
+	nCfg := c.N(10, 400)
 	perCfg := c.N(40, 120)
 	for ci := 0; ci < nCfg; ci++ {
 		r := vlib.Derive(c.Seed, "C07", ci)
